@@ -24,3 +24,17 @@ func TestReassemble(t *testing.T) {
 		t.Fatalf("unaligned reassembly not identity: %s", Body(got))
 	}
 }
+
+// bytes taken with an arithmetic shift (int64 stored byte by byte) reassemble to the value
+func TestReassembleArithmeticShift(t *testing.T) {
+	tb := NewTable()
+	v := tb.Var("s", BVSort(64))
+	var res *Term = tb.BVConst(0, 64)
+	for k := 0; k < 8; k++ {
+		b := tb.Extract(7, 0, tb.App("bvashr", v, tb.BVConst(uint64(8*k), 64)))
+		res = tb.App("bvor", res, tb.App("bvshl", tb.ZeroExt(56, b), tb.BVConst(uint64(8*k), 64)))
+	}
+	if res != v {
+		t.Fatalf("reassembly (ashr) not identity: %s %s", res.Op, Body(res))
+	}
+}
